@@ -72,7 +72,7 @@ def no_sau(fi: FuncInfo) -> bool:
 
 def has_unsupported(v: Val) -> Optional[str]:
     for t in walk_vals(v):
-        if isinstance(t, Term) and t.head in ('unsupported', 'badcall'):
+        if isinstance(t, Term) and t.head in ('unsupported', 'badcall', 'undefined'):
             return str(t)
     return None
 
